@@ -108,6 +108,9 @@ class History:
         self.sim = qsim.Sim(b, controls=controls, spawn_limit=self.spawn, gate_m=p.gate_m,
                             trace=("mo" if p.gate_m else "m") + p.trace_extra, plan=plan, count=p.count, oracles=self.oracles, label=label)
         self.sim.keep_log = p.keep_log
+        # how many outstanding deliveries are answered at one quiescent point: several reports (of both channels, of one
+        # message) then reach the daemon in the same select round (seed c04-s7)
+        self.burst = p.report_burst if p.report_burst > 1 else rng.choice([1, 1, 2, 3, 5])
         if p.gate_m:
             self.sim.gate_progs = "qmail-send,qmail-clean"
         if p.qq_fail:
@@ -323,7 +326,7 @@ class History:
                         del sim.outstanding[k]          # those deliveries will never be answered
                     continue
                 if sim.outstanding and rng.random() > p.hold_reports:
-                    for _ in range(rng.randint(1, max(1, p.report_burst))):
+                    for _ in range(rng.randint(1, max(1, self.burst))):
                         if not sim.outstanding:
                             break
                         k = rng.choice(sorted(sim.outstanding))
